@@ -198,3 +198,129 @@ def stringsOpReset (st : St) (head outToks : List String) : String :=
         | none => "skip unparsable-outcome")
      | _, _ => "skip unresolved-input")
   | _ => "skip bad-head"
+
+/-! ### StaticInspector -/
+
+def parseSDeq : String → Option SDeq
+  | "t" => some .t | "f" => some .f | "panic" => some .panic | "diverge" => some .diverge | _ => none
+def showSDeq : SDeq → String
+  | .t => "t" | .f => "f" | .panic => "panic" | .diverge => "diverge"
+instance : BEq SDeq := ⟨fun a b => decide (a = b)⟩
+
+/-- XC | <src> | <op> <right> | <out> -/
+def staticOpCmp (st : St) (srcToks argToks outToks : List String) : String :=
+  match argToks, outToks with
+  | [opTok, rightTok], [outTok] =>
+    (match parseSrc srcToks, opTok.toInt?, parseSeg rightTok, parseCmpOut outTok with
+     | some s, some op, some right, some impl =>
+       if right.pf == .inexact && s.kind.family == .float then "skip inexact-operand" else
+       classifyL st (fun c => staticCmp c s op right) (staticCmpAccepts s op right) impl showCmpOut (fun o => o == .panic)
+     | _, _, _, _ => "skip unresolved-input")
+  | _, _ => "skip bad-record"
+
+/-- XD | <src l> | <src r> | <out(l,r)> <out(r,l)> -/
+def staticOpDeq (st : St) (lToks rToks outToks : List String) : String :=
+  match outToks with
+  | [olr, orl] =>
+    (match parseSrc lToks, parseSrc rToks, parseSDeq olr, parseSDeq orl with
+     | some l, some r, some ilr, some irl =>
+       classifyL st (fun c => (staticDeq c l r, staticDeq c r l)) (fun o => staticDeqAccepts l r o.1 o.2) (ilr, irl)
+         (fun o => showSDeq o.1 ++ "," ++ showSDeq o.2)
+         (fun o => o.1 == .panic || o.2 == .panic || o.1 == .diverge || o.2 == .diverge)
+     | _, _, _, _ => "skip unresolved-input")
+  | _ => "skip bad-record"
+
+/-- XL | <src> | len|cap | <out> -/
+def staticOpLC (st : St) (srcToks fnToks outToks : List String) : String :=
+  match fnToks, outToks with
+  | [fn], [outTok] =>
+    (match parseSrc srcToks, parseLcOut outTok with
+     | some s, some impl =>
+       classifyL st (fun c => staticLc c (fn == "cap") s) (staticLcAccepts (fn == "cap") s) impl showLcOut (fun o => o == .panic)
+     | _, _ => "skip unresolved-input")
+  | _, _ => "skip bad-record"
+
+/-- XG | <src> | same1 | same0 | err | panic -/
+def staticOpGet (st : St) (_srcToks outToks : List String) : String :=
+  match outToks with
+  | [o] =>
+    classifyL st (fun _ => "same1") (fun x => x == "same1") o id (fun x => x == "panic")
+  | _ => "skip bad-record"
+
+/-- Observation of Copy / CopyTo / Reset of the static inspector. -/
+structure SObs where
+  tag : String
+  kind : String := ""
+  shared : Nat := 0
+  v : Val := .nilptr
+
+instance : BEq SObs := ⟨fun a b => a.tag == b.tag && (a.tag != "ok" || (a.kind == b.kind && a.shared == b.shared && valContentEq a.v b.v))⟩
+def showSObs (o : SObs) : String := if o.tag == "ok" then s!"ok {o.kind} {o.shared} " ++ showVal o.v else o.tag
+
+def sobsOf : SCopy → SObs
+  | .ok k v => { tag := "ok", kind := (if k == .bytes then "bytes" else k.name), v := v }
+  | .unsupported => { tag := "unsupported" }
+  | .mustPointer => { tag := "mustpointer" }
+  | .panic => { tag := "panic" }
+
+def parseSObs : List String → Option SObs
+  | ["ok", k, sh, vtok] => do
+    let (v, _) ← parseVal [vtok]
+    pure { tag := "ok", kind := k, shared := (← sh.toNat?), v := v }
+  | [t] => some { tag := t }
+  | _ => none
+
+/-- XP | <src> | ok <kind> <shared> <val> | unsupported | panic -/
+def staticOpCopy (st : St) (srcToks outToks : List String) : String :=
+  match parseSrc srcToks, parseSObs outToks with
+  | some s, some impl =>
+    let acc (o : SObs) : Bool :=
+      if s.kind == .foreign then o.tag == "unsupported"
+      else if s.v.isNilPtr then true
+      else o.tag == "ok" && o.shared == 0 && valContentEq o.v s.v && o.kind == (if s.kind == .bytes then "bytes" else s.kind.name)
+    classifyL st (fun c => sobsOf (staticCopy c s)) acc impl showSObs (fun o => o.tag == "panic")
+  | _, _ => "skip unresolved-input"
+
+/-- XT | <src> | <dst kind> <dst form> | ok <kind> <shared> <val> | okvalue | mustpointer | unsupported | panic -/
+def staticOpCopyTo (st : St) (srcToks dstToks outToks : List String) : String :=
+  match dstToks with
+  | [dk, dform] =>
+    (match parseSrc srcToks, parseSObs outToks with
+     | some s, some impl =>
+       let dkind := DynKind.ofName (if dk == "bytes" then "[]byte" else dk)
+       let acc (o : SObs) : Bool :=
+         if s.kind == .foreign then o.tag == "unsupported"
+         else if s.v.isNilPtr || dform == "pn" then true
+         else if dform == "p" && dkind == s.kind then o.tag == "ok" && o.shared == 0 && valContentEq o.v s.v
+         else o.tag == "mustpointer" || o.tag == "unsupported"
+       classifyL st (fun c => let r := sobsOf (staticCopyTo c s dkind (dform != "v") (dform == "pn"))
+                               if r.tag == "ok" then { r with kind := dk } else r) acc impl showSObs (fun o => o.tag == "panic")
+     | _, _ => "skip unresolved-input")
+  | _ => "skip bad-record"
+
+/-- XR | <src> | ok <val> | ok - | unsupported | panic -/
+def staticOpReset (st : St) (srcToks outToks : List String) : String :=
+  match parseSrc srcToks with
+  | some s =>
+    let impl : Option SObs := match outToks with
+      | ["ok", "-"] => some { tag := "okvalue" }
+      | ["ok", vtok] => (parseVal [vtok]).map fun (v, _) => { tag := "ok", v := v }
+      | [t] => some { tag := t }
+      | _ => none
+    (match impl with
+     | some impl =>
+       let model (c : LibCfg) : SObs :=
+         if s.kind == .foreign then { tag := "okvalue" }     -- no arm: nil error, nothing happens
+         else if !s.isPtr then { tag := "okvalue" }
+         else match staticReset c s with
+           | some v => { tag := "ok", v := v }
+           | none => if s.kind == .string then { tag := "okvalue" } else { tag := "panic" }
+       let acc (o : SObs) : Bool :=
+         if s.kind == .foreign then o.tag == "unsupported" || o.tag == "okvalue"
+         else if s.v.isNilPtr then true
+         else if s.isPtr then o.tag == "ok" && isEmptyV o.v
+         else o.tag != "panic"
+       let norm (o : SObs) : SObs := if o.tag == "ok" && s.v.isNilPtr then { tag := "okvalue" } else o
+       classifyL st (fun c => norm (model c)) acc (norm impl) showSObs (fun o => o.tag == "panic")
+     | none => "skip unparsable-outcome")
+  | none => "skip unresolved-input"
